@@ -477,7 +477,14 @@ def run_case(case):
         keys = [json.dumps([s_.get("ops"), s_.get("mps"), s_.get("shots"), s_.get("trainable")], sort_keys=True)
                 for s_ in specs]
         counters["dups_in_batch"] += len(keys) - len(set(keys))
-        distinct_in_batch = len(set(keys))
+        # for the known-finding signature a "duplicate" is what the cache takes for one: an equal fingerprint
+        # (two tapes 4*pi apart in an angle are distinct by content and one entry for the cache)
+        try:
+            hkeys = [tape_obj(i).hash for i in call["tapes"]]
+        except Exception:  # noqa: BLE001 - hashing itself fails: reported below through the execution
+            hkeys = keys
+        distinct_in_batch = len(set(hkeys))
+        keys_for_sig = hkeys
         sig = {"store": st["kind"], "entry": case["entry"]}
         if iface != "numpy":
             sig["iface"] = iface
@@ -508,7 +515,7 @@ def run_case(case):
                 continue
             sig2 = dict(sig, exc=type(e).__name__, capacity_pressure=bool(pressure_own or pressure_user),
                         cachesize_lt_distinct=bool(st["kind"] == "true" and st["cachesize"] < distinct_in_batch),
-                        has_dups=len(keys) != distinct_in_batch)
+                        has_dups=len(keys_for_sig) != distinct_in_batch)
             violations.append({"klass": "exception_with_cache", "sig": sig2,
                                "detail": {"call": ci, "error": repr(e)[:200], "store": st,
                                           "batch": call["tapes"]}})
